@@ -1,13 +1,16 @@
 import Driver.Common
 import SSV.Model.SWF
 import SSV.Model.UdpSession
-open SSV SSV.SWF SSV.UdpSession
+import SSV.Model.UdpMulti
+open SSV SSV.SWF SSV.UdpSession SSV.UdpMulti
 
 /-- driver state: the filter under test (engine `swf`), a server and a client unpacker (engine `udpsess`) -/
 structure DState where
   f : Filter
   srv : ServerState
   cli : ClientState
+  tbl : Table
+  tblSize : Nat
 
 def b01 (s : String) : Option Bool :=
   if s == "1" then some true else if s == "0" then some false else none
@@ -26,30 +29,45 @@ def stepSwf (f : Filter) (fs : List String) : Option (Filter × String) :=
   | ["state"] => some (f, s!"{f.last} {f.ring}")
   | _ => none
 
+def optNat (s : String) : Option (Option Nat) :=
+  if s == "-" then some none else s.toNat?.map some
+
 def stepC04 (st : DState) (line : String) : DState × String :=
   match fields line with
+  | ["eih", "new", n] => match n.toNat? with
+      | some k => ({ st with tbl := emptyTable, tblSize := effectiveFilterSize k }, "ok")
+      | none => (st, "bad-op")
+  | ["eih", "pkt", now, sep, eih, eu, ku, long, sid, pid, hdr, typ, ts, pad, addr] =>
+      match now.toNat?, b01 sep, b01 eih, optNat eu, optNat ku, b01 long, sid.toNat?, pid.toNat?, b01 hdr, typ.toNat?, ts.toNat?, b01 pad, b01 addr with
+      | some now, some sep, some eih, some eu, some ku, some long, some sid, some pid, some hdr, some typ, some ts, some pad, some addr =>
+        let e : EPacket := { sep := sep, eih := eih, eihUser := eu, keyUser := ku,
+                             pkt := { long := long, sid := sid, pid := pid, authentic := false, hdr := hdr, typ := typ, ts := BitVec.ofNat 64 ts, csid := 0, padOk := pad, addrOk := addr } }
+        let (t', r) := multiStep st.tblSize st.tbl now e
+        let who := match t' sid with | some ent => toString ent.user | none => "-"
+        ({ st with tbl := t' }, s!"{r.name} {who}")
+      | _, _, _, _, _, _, _, _, _, _, _, _, _ => (st, "bad-op")
   | ["srv", "new", n] => match n.toNat? with
       | some k => ({ st with srv := serverInit (effectiveFilterSize k) }, "ok")
       | none => (st, "bad-op")
-  | ["srv", "pkt", now, long, pid, auth, hdr, typ, ts, rest] =>
-      match now.toNat?, b01 long, pid.toNat?, b01 auth, b01 hdr, typ.toNat?, ts.toNat?, b01 rest with
-      | some now, some long, some pid, some auth, some hdr, some typ, some ts, some rest =>
-        let p : Packet := { long := long, sid := 0, pid := pid, authentic := auth, hdr := hdr, typ := typ, ts := BitVec.ofNat 64 ts, csid := 0, rest := rest }
+  | ["srv", "pkt", now, long, pid, auth, hdr, typ, ts, pad, addr] =>
+      match now.toNat?, b01 long, pid.toNat?, b01 auth, b01 hdr, typ.toNat?, ts.toNat?, b01 pad, b01 addr with
+      | some now, some long, some pid, some auth, some hdr, some typ, some ts, some pad, some addr =>
+        let p : Packet := { long := long, sid := 0, pid := pid, authentic := auth, hdr := hdr, typ := typ, ts := BitVec.ofNat 64 ts, csid := 0, padOk := pad, addrOk := addr }
         let (s', r) := serverStep st.srv now p
         ({ st with srv := s' }, s!"{r.name} {if s'.filter.isSome then "filter" else "nofilter"}")
-      | _, _, _, _, _, _, _, _ => (st, "bad-op")
+      | _, _, _, _, _, _, _, _, _ => (st, "bad-op")
   | ["cli", "new", n, csid] => match n.toNat?, csid.toNat? with
       | some k, some c => ({ st with cli := clientInit (effectiveFilterSize k) c }, "ok")
       | _, _ => (st, "bad-op")
-  | ["cli", "pkt", now, long, sid, pid, auth, hdr, typ, ts, csid, rest] =>
-      match now.toNat?, b01 long, sid.toNat?, pid.toNat?, b01 auth, b01 hdr, typ.toNat?, ts.toNat?, csid.toNat?, b01 rest with
-      | some now, some long, some sid, some pid, some auth, some hdr, some typ, some ts, some csid, some rest =>
-        let p : Packet := { long := long, sid := sid, pid := pid, authentic := auth, hdr := hdr, typ := typ, ts := BitVec.ofNat 64 ts, csid := csid, rest := rest }
+  | ["cli", "pkt", now, long, sid, pid, auth, hdr, typ, ts, csid, pad, addr] =>
+      match now.toNat?, b01 long, sid.toNat?, pid.toNat?, b01 auth, b01 hdr, typ.toNat?, ts.toNat?, csid.toNat?, b01 pad, b01 addr with
+      | some now, some long, some sid, some pid, some auth, some hdr, some typ, some ts, some csid, some pad, some addr =>
+        let p : Packet := { long := long, sid := sid, pid := pid, authentic := auth, hdr := hdr, typ := typ, ts := BitVec.ofNat 64 ts, csid := csid, padOk := pad, addrOk := addr }
         let (s', r) := clientStep st.cli now p
         ({ st with cli := s' }, s!"{r.name} {sidStr s'.cur} {sidStr s'.old}")
-      | _, _, _, _, _, _, _, _, _, _ => (st, "bad-op")
+      | _, _, _, _, _, _, _, _, _, _, _ => (st, "bad-op")
   | fs => match stepSwf st.f fs with
       | some (f', o) => ({ st with f := f' }, o)
       | none => (st, "bad-op")
 
-def main : IO Unit := Driver.run { f := new 1, srv := serverInit 1, cli := clientInit 1 0 } stepC04
+def main : IO Unit := Driver.run { f := new 1, srv := serverInit 1, cli := clientInit 1 0, tbl := emptyTable, tblSize := 1 } stepC04
